@@ -73,6 +73,12 @@ PlanClause(ev) ==
                 /\ Crossings(P, ev.cw) # ExpectedCrossings(P[1], P[n + 1], ev.cw, ev.full)
              THEN "C16.sweep"
         ELSE IF n * 1000 > 7 * ev.rmilli + 2000 THEN "C16.too_many_samples"
+        \* the samples cover the commanded sweep: its length (ev.lmilli, in 1e-3 length units)
+        \* divided into steps of at most one unit, and not more steps than that needs.  This is
+        \* the clause that decides sweeps within a hair of zero or of a full turn, which the
+        \* quadrant count above cannot tell apart.
+        ELSE IF n * 1000 + 5 < ev.lmilli THEN "C16.sweep_not_covered"
+        ELSE IF n * 1000 > ev.lmilli + 1005 THEN "C16.sweep_exceeded"
         ELSE ""
 
 \* radius form: the centre is at distance |R| from both end points (scaled to RS)
